@@ -39,6 +39,12 @@ Proof.
 Qed.
 End TokNames.
 
+Lemma index_bound {D} (vars : list str) (vals : list D) : length vals = length vars ->
+  forall x i, index_of x vars 0 = Some i -> i < length vals.
+Proof.
+  intros Hlen x i H. destruct (index_of_spec x vars 0 i H) as [_ Hn]. rewrite Nat.sub_0_r in Hn. rewrite Hlen. apply nth_error_Some. congruence.
+Qed.
+
 Section C03Main.
 Context {D : Type}.
 Variable C : carrier D.
@@ -52,13 +58,14 @@ Hypothesis R_un : forall k a a', R a a' -> R (unf C k a) (unf C k a').
 Hypothesis flagged_assoc : forall o, comm_of tb o = true ->
   forall a b c, R (binf C o (binf C o a b) c) (binf C o a (binf C o b c)).
 
-Theorem deep_parse_is_reference (c : chain (D:=D)) (vals : list D) :
+Theorem deep_parse_is_reference_wf (c : chain (D:=D)) (vals : list D) :
   wf_chain tb c = true -> length vals = length (find_parsed_vars (flatten c)) ->
   exists e v,
     dparse C tb (S (length (flatten c))) None (flatten c) (find_parsed_vars (flatten c)) [] [] [] = Ok (e, []) /\
     dvars e = find_parsed_vars (flatten c) /\
     eval_deep C e vals = Ok v /\
-    R v (ref_chain C tb (find_parsed_vars (flatten c)) vals c).
+    R v (ref_chain C tb (find_parsed_vars (flatten c)) vals c) /\
+    dwf (flagged tb) (okvar (find_parsed_vars (flatten c))) (okvars (find_parsed_vars (flatten c)) vals) e.
 Proof.
   intros Hwf Hlen. set (vars := find_parsed_vars (flatten c)) in *.
   destruct (vars_in_chain c) as [Hv0 Hvr]. fold vars in Hv0, Hvr.
@@ -70,10 +77,23 @@ Proof.
   rewrite app_nil_r in He.
   assert (Hvars : dvars e = vars).
   { rewrite Hdv. unfold vars. rewrite (find_parsed_vars_chain (a0, rest)). reflexivity. }
-  destruct (eval_deep_is_dden C R R_refl R_sym R_trans R_bin R_un (flagged tb) flagged_assoc (vlook C vals) (okvar vals) (okvars vars vals) vals (okvars_len vars vals) (fun i x H => conj H eq_refl) e Hwe)
+  destruct (eval_deep_is_dden C R R_refl R_sym R_trans R_bin R_un (flagged tb) flagged_assoc (vlook C vals) (okvar vars) (okvars vars vals) vals (okvars_len vars vals) (fun i x H => conj (index_bound vars vals Hlen x i H) eq_refl) e Hwe)
     as (v & Ev & Rv).
   exists e, v. split; [exact He|]. split; [exact Hvars|]. split.
   - unfold eval_deep. rewrite Hvars, Hlen, Nat.eqb_refl. exact Ev.
-  - eapply R_trans; [exact Rv|exact Hr].
+  - split; [eapply R_trans; [exact Rv|exact Hr]|exact Hwe].
 Qed.
+
+Theorem deep_parse_is_reference (c : chain (D:=D)) (vals : list D) :
+  wf_chain tb c = true -> length vals = length (find_parsed_vars (flatten c)) ->
+  exists e v,
+    dparse C tb (S (length (flatten c))) None (flatten c) (find_parsed_vars (flatten c)) [] [] [] = Ok (e, []) /\
+    dvars e = find_parsed_vars (flatten c) /\
+    eval_deep C e vals = Ok v /\
+    R v (ref_chain C tb (find_parsed_vars (flatten c)) vals c).
+Proof.
+  intros Hwf Hlen. destruct (deep_parse_is_reference_wf c vals Hwf Hlen) as (e & v & H1 & H2 & H3 & H4 & _).
+  exists e, v. repeat split; assumption.
+Qed.
+
 End C03Main.
